@@ -19,7 +19,7 @@ import solver  # noqa: E402
 import symex  # noqa: E402
 from symex import Adt, Scalar, Sym, Tokens, conj, disj, neg  # noqa: E402
 
-PROPS = ("C07", "C04", "C01", "C13", "C05", "C11", "C06", "C14", "C17", "C03")
+PROPS = ("C07", "C04", "C01", "C13", "C05", "C11", "C06", "C14", "C17", "C03", "C08", "C09", "C12", "C15")
 
 _LOADED = {}
 
@@ -324,6 +324,8 @@ def run(pid, tier, seed):
         obs += imp_props.build(pid, P, R, tier, log_dir)
         import c03_props
         obs += c03_props.build(pid, P, R, tier, log_dir)
+        import fmt_props
+        obs += fmt_props.build(pid, P, R, tier, log_dir)
     results = []
     for ob in obs:
         t0 = time.time()
